@@ -203,8 +203,9 @@ structure St where
   inv : Bool := false
   /-- watchers libuv itself keeps registered (async wakeup): contribution to `loop->nfds` -/
   internal : Nat := 0
-  /-- discipline switch: allow a second handle to be *initialised* on a descriptor that already has a
-  live handle (off in the theorems; on only to replay the witness of `Props.C14.second_handle_*`) -/
+  /-- discipline switch (off in the theorems; on only to replay the witnesses of the negative results in
+  Props.C14): allow a second handle to be *initialised* on a descriptor that already has a live handle,
+  and allow closing a descriptor whose handle is stopped but not yet closed -/
   multi : Bool := false
   aborted : Bool := false
   /-- newest first -/
@@ -354,7 +355,7 @@ def doOp (s : St) : Op → St
   | .openfd fd _ =>
     if (s.k.ofdAt fd).isSome then emit s .refused else emit { s with k := s.k.openFd fd } (.ret 0)
   | .closefd fd =>
-    if (s.k.ofdAt fd).isSome && fdIdle s fd then emit { s with k := s.k.closeFd fd } (.ret 0)
+    if (s.k.ofdAt fd).isSome && (fdIdle s fd || s.multi) then emit { s with k := s.k.closeFd fd } (.ret 0)
     else emit s .refused
   | .dupfd fd =>
     if (s.k.ofdAt fd).isSome then emit { s with k := s.k.dupFd fd } (.newId s.k.nextDup)
